@@ -251,3 +251,5 @@ func startWatchdog() {
 type replayFn func(raw json.RawMessage) (msg string, failed bool, err error)
 
 var replayers = map[string]replayFn{}
+
+func getenv(name string) string { return os.Getenv(name) }
